@@ -245,6 +245,7 @@ def run(c: Check):
         if n > 2:
             c.notes.append("%d more failing events with signature %s (first two reported)" % (n - 2, k))
     crash_points(c, th)
+    overlapping(c, th)
     c.assumptions += [
         "every version of every list blocks two probe hosts of its own (first and last line of its text); the served "
         "version is what filtering queries through ForConfig(...).FilterRequest reveal",
@@ -286,6 +287,32 @@ def report(c, sg, idx, clauses, known, ms, md, seen):
                    json.dumps(rnd and rnd["variants"]), json.dumps(e.get("served")), json.dumps(e.get("disk")),
                    e.get("applied"), e.get("ok", True), e.get("odd_served"), e.get("odd_disk"), ms, md, known),
                 {"segment": sg[:idx + 1], "offending_index": idx, "clauses": clauses, "explained_by": known})
+
+
+def overlapping(c, th):
+    """Two refreshes of one refreshable in flight at once (AtomicFile2.tla)."""
+    c.tlc_mc("AtomicFile2", "AtomicFile2_mc.cfg", name="two concurrent replacements of one file, private temporary names")
+    c.tlc_mc("AtomicFile2", "AtomicFile2_sanity.cfg", expect_violation="DiskAlwaysComplete", count=False,
+             name="sanity: one fixed temporary name per target")
+    out, _ = c.go_harness("internal/filter/internal/refreshable", "^TestVerifC13Overlap$", files=["c13overlap_test.go"],
+                          env={"VERIF_ROUNDS": 12 if th else 4}, timeout=600)
+    ev = read_ndjson(out)
+    if len(ev) < 4:
+        raise Undecided("overlap harness recorded %d rounds" % len(ev))
+    path = os.path.join(c.scratch, "c13ov.ndjson")
+    write_ndjson(path, ev)
+    r = c.tlc_trace("TraceAtomicFile2", "TraceAtomicFile2.cfg", path, timeout=300)
+    if r.tuples("STUCK"):
+        raise Undecided("overlap trace spec stuck")
+    c.cov["traces_validated_against_impl"] += len(ev) - len(r.tuples("NONCONF"))
+    for e in ev:
+        c.count_case(("overlap", e["round"], e["chunk"], e["after_b"], e["final"]), nontrivial=True)
+    for t in r.tuples("NONCONF"):
+        e = ev[int(t[0]) - 1]
+        c.violation({"kind": "overlap", "after_b": e["after_b"], "final": e["final"]},
+                    "C13 cache file of a list with two of its refreshes overlapping (download halves of %d bytes): %s; on disk after "
+                    "the second refresh completed: %s, after both ended: %s (errors: first %r, second %r)" % (
+                        e["chunk"], t[1], e["after_b"], e["final"], e["err_a"], e["err_b"]), e)
 
 
 def crash_points(c, th):
